@@ -949,6 +949,8 @@ impl<'a, 'b> InternalDelphiLogicalLineParser<'a, 'b> {
                         self.finish_logical_line();
                     }
                     self.parse_structures();
+                    // The last member of the section may have no `;`
+                    self.finish_logical_line();
                     self.context.pop();
                     self.parse_structures();
                     self.context.pop();
